@@ -62,8 +62,7 @@ theorem win_mark (r : Nat) (it : Inst) (h : it.pc = .mark) : win r it = false :=
 
 macro "rs_tac" : tactic =>
   `(tactic| (intro r h1
-             refine rs_upd_keep _ _ _ (by intro h; exact h) r ?_
-             exact rs_upd_keep _ _ _ (by intro h; exact h) r h1))
+             repeat (first | exact h1 | refine rs_upd_keep _ _ _ (by intro h; exact h) r ?_)))
 
 theorem inv_step (s s' : LS) (e : Ev) (hI : Inv s) (hs : s.step e = some s') : Inv s' := by
   refine ⟨?_, bd_step s s' e hI.2 hs⟩
@@ -316,8 +315,13 @@ theorem inv_step (s s' : LS) (e : Ev) (hI : Inv s) (hs : s.step e = some s') : I
           refine ⟨ref_of_set s _ hr rfl i _ (by exact hlt) rfl (fun r h => hr.2 r h), ?_⟩
           refine once_of_set s _ h s.insts (fun _ => rfl) i it _ hit rfl (fun _ h => h) ?_
           intro r; left; simp [sent, win, hpc]
-        · rename_i f rest hfls
-          have hf : f < s.n := hb.fls it (mem_of_get _ _ _ hit) f (by rw [hfls]; exact List.mem_cons_self)
+        · rename_i f hcur
+          have hf : f < s.n := hb.fls it (mem_of_get _ _ _ hit) f hcur
+          split at hs
+          · cases hs
+            refine ⟨ref_of_set s _ hr rfl i _ (by exact hlt) rfl (fun r h => hr.2 r h), ?_⟩
+            refine once_of_set s _ h s.insts (fun _ => rfl) i it _ hit rfl (fun _ h => h) ?_
+            intro r; left; simp [sent, win, hpc]
           · cases hs
             constructor
             · refine ⟨fun x hx => ?_, fun r h => hr.2 r h⟩
